@@ -477,6 +477,8 @@ func runC09(w *World, r *Report) {
 	// 4. both parents exist before admission
 	parentsExist(w, r, "parents-exist")
 	everyParentLinked(w, r, "every-looked-up-parent-is-linked")
+	// a tip that is dropped takes its index entry along: a dangling entry keeps the vertex (and its transaction) out for good
+	deleteWithIndex(w, r, "delete-with-index")
 
 	// 5. weight and signing
 	r.rule("weight-and-seal", "CreateLeaf seals calcNewWeight(l.Weight, r.Weight) of the two referenced parents; NewVertex returns only the candidate it signed; sign stores Hash/Signature from signer.Sign(initData())", 4)
@@ -1389,7 +1391,8 @@ func runC13(w *World, r *Report) {
 			if pv == nil {
 				pv = callValue(pc)
 			}
-			empty := edgesWhere(br.fn, func(ft fact) bool {
+			host := pc.Parent() // buffer.run, or the method of the buffer that holds the body of its ticker arm
+			empty := edgesWhere(host, func(ft fact) bool {
 				if ft.kind == fFalse { // `v, ok := pop(); if !ok`
 					if ex, isEx := strip(ft.x).(*ssa.Extract); isEx && ex.Tuple == callValue(pc) && ex.Index > 0 {
 						return true
@@ -1421,7 +1424,7 @@ func runC13(w *World, r *Report) {
 				}
 				return false
 			})
-			isPublish := passesDeep(br.fn, idRes, func(in ssa.Instruction, _ resolver) bool {
+			isPublish := passesDeep(host, idRes, func(in ssa.Instruction, _ resolver) bool {
 				switch x := in.(type) {
 				case *ssa.Send:
 					return strings.HasSuffix(pathOf(x.Chan), ".pub")
@@ -1768,6 +1771,109 @@ func runC14(w *World, r *Report) {
 		}
 	}
 
+	// every tip is walked: the loop over the tips ends because the tips are exhausted, the consumer went away, or a step
+	// failed — not because a count says "that must have been all"
+	r.rule("every-tip-is-walked", "in StreamDAG every branch that leaves the loop over dag.GetLeaves() is decided by the range itself (no more tips), by a select with a ctx.Done() arm, by the error of a call or by a failed type assertion: no exit depends on a computed quantity (a counter, a size)", 1)
+	if sf := w.fx(r, "accountant", "AccountingBook", "StreamDAG"); sf != nil {
+		nLoops := 0
+		for _, g := range withHelpers(sf.fn, 1) {
+			for _, cl := range WithAnon(g) {
+				for _, hdr := range cl.Blocks {
+					var next *ssa.Next
+					for _, in := range hdr.Instrs {
+						if nx, ok := in.(*ssa.Next); ok {
+							if rg, ok := nx.Iter.(*ssa.Range); ok {
+								for _, o := range origins(rg.X) {
+									if oc, ok := o.(*ssa.Call); ok && calleeName(oc) == dagM("GetLeaves") {
+										next = nx
+									}
+								}
+							}
+						}
+					}
+					if next == nil {
+						continue
+					}
+					nLoops++
+					inLoop := map[*ssa.BasicBlock]bool{}
+					for _, b := range cl.Blocks {
+						if onCycleWith(b, hdr) {
+							inLoop[b] = true
+						}
+					}
+					inLoop[hdr] = true
+					bad := ""
+					for b := range inLoop {
+						iff, ok := b.Instrs[len(b.Instrs)-1].(*ssa.If)
+						if !ok {
+							continue
+						}
+						leaves := false
+						for _, sc := range b.Succs {
+							if !inLoop[sc] {
+								leaves = true
+							}
+						}
+						if !leaves {
+							continue
+						}
+						okCond := false
+						seen := map[ssa.Value]bool{}
+						var walk func(v ssa.Value, d int)
+						walk = func(v ssa.Value, d int) {
+							if v == nil || seen[v] || d > 6 {
+								return
+							}
+							seen[v] = true
+							switch x := v.(type) {
+							case *ssa.Extract:
+								switch x.Tuple.(type) {
+								case *ssa.Next, *ssa.Select, *ssa.TypeAssert:
+									okCond = true
+								}
+								if isErrorType(x.Type()) {
+									okCond = true
+								}
+							case *ssa.Call:
+								if isErrorType(x.Type()) {
+									okCond = true
+								}
+								// a helper that does the guarded send and reports whether the consumer is still there
+								if cal := x.Call.StaticCallee(); cal != nil && isRepoFunc(cal) && len(cal.Blocks) > 0 {
+									instrsOf(cal, func(in ssa.Instruction) {
+										if sel, ok := in.(*ssa.Select); ok && selectHasCtxArm(sel) {
+											okCond = true
+										}
+									})
+								}
+							case *ssa.BinOp:
+								walk(x.X, d+1)
+								walk(x.Y, d+1)
+							case *ssa.UnOp:
+								walk(x.X, d+1)
+							case *ssa.Phi:
+								for _, e := range x.Edges {
+									walk(e, d+1)
+								}
+							}
+							if isErrorType(v.Type()) {
+								okCond = true
+							}
+						}
+						walk(iff.Cond, 0)
+						if !okCond {
+							bad += fmt.Sprintf(" the branch at %s leaves the loop over the tips on a computed condition;", lineOf(w, iff))
+						}
+					}
+					r.check(bad == "", "every-tip-is-walked", shortFn(cl)+"/tips-loop", lineOf(w, next), "the tips loop ends only when the tips are exhausted, the consumer is gone or a step failed", bad+" tips that were not yet walked are left out of a stream that looks complete")
+				}
+			}
+		}
+		if nLoops == 0 {
+			r.bad("every-tip-is-walked", "StreamDAG/tips-loop", w.Pos(sf.fn.Pos()), "the loop over dag.GetLeaves() is identifiable", "not found")
+		}
+	}
+
 	r.rule("malformed-stream-refused", "a second self-sealed vertex and an empty transaction in the stream each lead to cancel (never to the loaded flag)", 2)
 	syncGuardObligations(w, r, "malformed-stream-refused")
 
@@ -1944,7 +2050,8 @@ func bufferPop(w *World) (*ssa.Function, []ssa.CallInstruction) {
 	}
 	var pop *ssa.Function
 	var sites []ssa.CallInstruction
-	instrsOf(run, func(in ssa.Instruction) {
+	// the body of the ticker arm may sit in a method of the buffer that run calls
+	scan := func(in ssa.Instruction) {
 		c, ok := in.(*ssa.Call)
 		if !ok {
 			return
@@ -1962,7 +2069,10 @@ func bufferPop(w *World) (*ssa.Function, []ssa.CallInstruction) {
 		}
 		pop = cal
 		sites = append(sites, c)
-	})
+	}
+	for _, g := range withHelpers(run, 1) {
+		instrsOf(g, scan)
+	}
 	return pop, sites
 }
 
@@ -1986,6 +2096,11 @@ func isBoolType(t types.Type) bool {
 func syncGuardObligations(w *World, r *Report, rule string) {
 	if f := w.fx(r, "accountant", "AccountingBook", "LoadDag"); f != nil {
 		fn := f.fn
+		// the per-vertex checks may sit in a helper that answers with an error which LoadDag turns into cancel
+		if h, sites := syncGuardHelper(fn); h != nil {
+			syncGuardsInHelper(w, r, rule, fn, h, sites)
+			return
+		}
 		cancelBlocks := cancelCallBlocks(fn)
 		loadedStores := storesToField(fn, "dagLoaded")
 		// self sealed twice
@@ -2653,5 +2768,161 @@ func everyParentLinked(w *World, r *Report, rule string) {
 	}
 	if n == 0 {
 		r.undecided(rule, "addLeafMemorized/edge-sources", w.Pos(f.fn.Pos()), "the list of edge sources must be identifiable", "no append inside a loop feeds the AddEdge loop")
+	}
+}
+
+// syncGuardHelper: the same-package helper called from LoadDag that holds the self-sealed comparison (nil when the
+// comparison sits in LoadDag itself).
+func syncGuardHelper(fn *ssa.Function) (*ssa.Function, []ssa.CallInstruction) {
+	isSelf := func(ft fact) bool {
+		return ft.kind == fEq && ((pathHasSuffix(pathOf(ft.x), "Transaction.IssuerAddress") && pathHasSuffix(pathOf(ft.y), "SignerPublicAddress")) ||
+			(pathHasSuffix(pathOf(ft.y), "Transaction.IssuerAddress") && pathHasSuffix(pathOf(ft.x), "SignerPublicAddress")))
+	}
+	if len(edgesWhere(fn, isSelf)) > 0 {
+		return nil, nil
+	}
+	for _, c := range helperCalls(fn) {
+		h := samePkgHelper(fn, c)
+		if h != nil && errIndex(h) >= 0 && len(edgesWhere(h, isSelf)) > 0 {
+			var sites []ssa.CallInstruction
+			for _, c2 := range helperCalls(fn) {
+				if samePkgHelper(fn, c2) == h {
+					sites = append(sites, c2)
+				}
+			}
+			return h, sites
+		}
+	}
+	return nil, nil
+}
+
+// syncGuardsInHelper: the sync guards when they live in helper h (answering with an error) called from LoadDag at sites.
+func syncGuardsInHelper(w *World, r *Report, rule string, fn, h *ssa.Function, sites []ssa.CallInstruction) {
+	cancelBlocks := cancelCallBlocks(fn)
+	loadedStores := storesToField(fn, "dagLoaded")
+	// a failing helper leads only to cancel
+	okCall := len(sites) > 0
+	for _, c := range sites {
+		fes := failErrNonNil(c)
+		if len(fes) == 0 {
+			okCall = false
+		}
+		for _, fe := range fes {
+			if !leadsOnlyToCancel(fe, cancelBlocks, loadedStores) {
+				okCall = false
+			}
+		}
+	}
+	onlyErrorReturns := func(e Edge) bool {
+		ok, n := true, 0
+		walkFrom(nil, e.To(), nil, func(x ssa.Instruction) bool {
+			if ret, isRet := x.(*ssa.Return); isRet {
+				n++
+				if successReturn(ret) {
+					ok = false
+				}
+				return true
+			}
+			return false
+		})
+		return ok && n > 0
+	}
+	selfE := edgesWhere(h, func(ft fact) bool {
+		return ft.kind == fEq && ((pathHasSuffix(pathOf(ft.x), "Transaction.IssuerAddress") && pathHasSuffix(pathOf(ft.y), "SignerPublicAddress")) ||
+			(pathHasSuffix(pathOf(ft.y), "Transaction.IssuerAddress") && pathHasSuffix(pathOf(ft.x), "SignerPublicAddress")))
+	})
+	okSelf := okCall && len(selfE) > 0
+	for _, e := range selfE {
+		var flagTrue []Edge
+		for b := range reachable([]*ssa.BasicBlock{e.To()}, nil) {
+			for i := range b.Succs {
+				for _, ft := range edgeFacts(Edge{b, i}) {
+					if ft.kind == fTrue && isBoolType(strip(ft.x).Type()) {
+						switch strip(ft.x).(type) {
+						case *ssa.Phi, *ssa.UnOp, *ssa.Parameter:
+							flagTrue = append(flagTrue, Edge{b, i})
+						}
+					}
+				}
+			}
+		}
+		if len(flagTrue) == 0 {
+			okSelf = false
+		}
+		for _, te := range flagTrue {
+			if !onlyErrorReturns(te) {
+				okSelf = false
+			}
+		}
+	}
+	// the memory of "a self-sealed vertex was already seen" outlives the call: it is written through a pointer the caller
+	// handed in (a pointer parameter or a pointer receiver), not into a copy that dies with the call
+	persists := false
+	instrsOf(h, func(in ssa.Instruction) {
+		st, ok := in.(*ssa.Store)
+		if !ok {
+			return
+		}
+		if bv, isB := boolConst(st.Val); !isB || !bv {
+			return
+		}
+		if prm, isPrm := baseOf(st.Addr).(*ssa.Parameter); isPrm {
+			if _, isPtr := prm.Type().Underlying().(*types.Pointer); isPtr {
+				persists = true
+			}
+		}
+	})
+	if !persists {
+		okSelf = false
+	}
+	r.check(okSelf, rule, "LoadDag/second-self-sealed", w.Pos(fn.Pos()), "a second vertex whose issuer is its sealing node aborts the load", fmt.Sprintf("self-sealed test missing, not leading to cancel, or its memory does not outlive the call of %s (flag written through a caller's pointer: %v)", shortFn(h), persists))
+	okEmpty := false
+	empties := callsTo(h, cn("transaction", "Transaction", "IsEmpty"))
+	for _, c := range empties {
+		okEmpty = okCall
+		for _, te := range passBool(c, 0, true) {
+			if !onlyErrorReturns(te) {
+				okEmpty = false
+			}
+		}
+	}
+	r.check(okEmpty, rule, "LoadDag/empty-transaction", w.Pos(fn.Pos()), "an empty transaction aborts the load", "IsEmpty test missing or not leading to cancel (through "+shortFn(h)+")")
+	// every vertex is tested: no success return of the helper without the IsEmpty call, and no turn of LoadDag's checking
+	// loop without the helper
+	for _, c := range empties {
+		skipped := 0
+		walkFrom(nil, h.Blocks[0], nil, func(x ssa.Instruction) bool {
+			if x == c.(ssa.Instruction) {
+				return true
+			}
+			if ret, isRet := x.(*ssa.Return); isRet {
+				if successReturn(ret) {
+					skipped++
+				}
+				return true
+			}
+			return false
+		})
+		for _, site := range sites {
+			hdr := enclosingRangeHeader(site.Block())
+			if hdr == nil || len(hdr.Succs) != 2 {
+				r.undecided(rule, "LoadDag/every-vertex-tested-for-emptiness", lineOf(w, site), "the checking helper is called in the loop over the loaded vertices", "no enclosing range loop")
+				continue
+			}
+			walkFrom(nil, hdr.Succs[0], nil, func(x ssa.Instruction) bool {
+				if x == site.(ssa.Instruction) {
+					return true
+				}
+				if x.Block() == hdr {
+					skipped++
+					return true
+				}
+				if _, isRet := x.(*ssa.Return); isRet {
+					return true
+				}
+				return false
+			})
+		}
+		r.check(skipped == 0, rule, "LoadDag/every-vertex-tested-for-emptiness", lineOf(w, c), "no vertex of the stream gets past the checking loop without the IsEmpty test", fmt.Sprintf("%d ways to the next vertex without the emptiness test", skipped))
 	}
 }
